@@ -404,6 +404,7 @@ type world struct {
 	panicked       string
 	dkeys          map[string]int
 	pqSpec         map[int]string         // id -> "comps plat"
+	gateAuth       bool                   // monitor-only histories: the authorization of a WaitExecution started under a hold takes until the hold ends
 	slowSelectNext bool                   // the next Execute's size class selection takes until the hold ends (hold=3)
 	delayNext      bool                   // the next Synchronize call is overtaken between its clock read and the scheduler lock (hold=2)
 	delayed        map[string]delayedSync // such calls that have not reached the scheduler yet
@@ -680,7 +681,7 @@ func (w *world) startWait(c, name int) {
 		u[i] = byte(n)
 		n >>= 8
 	}
-	slowAuth := w.clk.holding()
+	slowAuth := w.clk.holding() && w.gateAuth
 	go func() {
 		defer w.guard("WaitExecution")
 		if slowAuth {
@@ -905,4 +906,20 @@ func (c *fakeClock) takeReadAt(key string) (int64, bool) {
 	t, ok := c.readAt[key]
 	delete(c.readAt, key)
 	return t, ok
+}
+
+// gated reports whether the Synchronize call of the worker is one that the current hold suspends
+// at its next clock read (it was in progress when the hold began).
+func (c *fakeClock) gated(key string) bool {
+	c.mu.Lock()
+	defer c.mu.Unlock()
+	if c.gate == nil {
+		return false
+	}
+	for g, k := range c.names {
+		if k == key {
+			return c.held[g] < c.gateSeq
+		}
+	}
+	return false
 }
